@@ -52,6 +52,7 @@ func runSlot(c *ctx) error {
 	s := newScn(c, t)
 	s.Quiet["ImpactList"] = true
 	s.Quiet["RotPoll"] = true
+	s.WithDisk = true // restarts are judged against the files
 	alpha := slotAlphabet()
 	maxLen := 3
 	if c.tier == "thorough" {
@@ -108,6 +109,15 @@ func runSlot(c *ctx) error {
 				a := alpha[k]
 				s.Deliver(s.ReportBytes(id, ts, a.valFor(caps[id-1]), key, a.alt))
 				nev++
+			}
+		}
+		// what a slot publishes is the same function of the reports after a restart (twice)
+		if (i/perScn)%3 == int(c.seed)%3 || c.tier == "thorough" {
+			if err := s.Restart(); err != nil {
+				return err
+			}
+			if err := s.Restart(); err != nil {
+				return err
 			}
 		}
 	}
